@@ -436,6 +436,24 @@ func C08(c *core.Ctx) {
 					if _, _, ok := storeToField(in, "", "children"); ok {
 						unlinks = append(unlinks, in)
 					}
+					// the unlinking may be a helper (parent.removeChild(cur)): the call is
+					// the effect
+					if cl, ok := in.(*ssa.Call); ok {
+						if g := cl.Call.StaticCallee(); g != nil && g != fn && g.Blocks != nil && g.Pkg == fn.Pkg {
+							does := false
+							core.InstrsDeep(g, func(x ssa.Instruction) {
+								if _, ok := isBuiltinCall(x, "delete"); ok {
+									does = true
+								}
+								if _, _, ok := storeToField(x, "", "children"); ok {
+									does = true
+								}
+							})
+							if does {
+								unlinks = append(unlinks, in)
+							}
+						}
+					}
 				}
 			}
 			isCur := func(v ssa.Value) bool { return core.Strip(v) == ssa.Value(cursor) }
